@@ -2439,13 +2439,14 @@ class ConvertPythonInstance:
                         )
                         _block_stack.append(dummy_block)
 
-                        for block in current_blocks:
-                            converted_blocks.append(self.apply(block))
+                        try:
+                            for block in current_blocks:
+                                converted_blocks.append(self.apply(block))
 
-                        for ctx in current_contexts:
-                            converted_contexts.append(self.apply(ctx))
-
-                        _block_stack.pop()
+                            for ctx in current_contexts:
+                                converted_contexts.append(self.apply(ctx))
+                        finally:
+                            _block_stack.pop()
                         current_contexts = dummy_block._cohdl_block_info._subcontext
                         current_blocks = dummy_block._cohdl_block_info._subblocks
 
